@@ -21,7 +21,8 @@ def base_cfg(rs, pid, nres=None, nobj=1):
 def setup(w, rg):
     cfg = w.cfg
     for i in range(cfg["nres"]):
-        init = gen_value(rg, w.fresh, 2, cfg["kinds"][i], 3) if rg.random() < 0.7 else None
+        # (fault-injecting configurations need existing files: with a missing file the library keeps its in-memory state by design)
+        init = gen_value(rg, w.fresh, 2, cfg["kinds"][i], 3) if (rg.random() < 0.7 or cfg.get("p_fault")) else None
         yield {"t": "new_res", "family": cfg["family"], "kind": cfg["kinds"][i], "init": init}
     for i in range(cfg["nres"]):
         for _ in range(cfg["nobj"]):
